@@ -635,6 +635,13 @@ class _ChainEnv(dict):
         return self[k] if k in self else d
 
 
+def _scope(env):
+    """A new innermost scope over `env` (a comprehension / lambda body): names of an enclosing function stay visible through the chain."""
+    if isinstance(env, _ChainEnv):
+        return _ChainEnv(env)
+    return dict(env)
+
+
 class Folder:
     def __init__(self, repo: Repo, max_steps: int = 20000, allow_loops: bool = False):
         self.repo = repo
@@ -1229,9 +1236,22 @@ class Folder:
     def _assign(self, t, v, env):
         if isinstance(t, ast.Name):
             env[t.id] = v
+        elif isinstance(t, (ast.Tuple, ast.List)) and any(isinstance(x, ast.Starred) for x in t.elts):
+            vs = list(self._iterate(v)) if isinstance(v, LazyIter) else list(v)
+            si = next(i for i, x in enumerate(t.elts) if isinstance(x, ast.Starred))
+            after = len(t.elts) - si - 1
+            if len(vs) < len(t.elts) - 1:
+                raise FoldRaise('ValueError', f'not enough values to unpack (expected at least {len(t.elts) - 1}, got {len(vs)})')
+            for tt, vv in zip(t.elts[:si], vs[:si]):
+                self._assign(tt, vv, env)
+            self._assign(t.elts[si].value, vs[si:len(vs) - after], env)
+            for tt, vv in zip(t.elts[si + 1:], vs[len(vs) - after:] if after else []):
+                self._assign(tt, vv, env)
         elif isinstance(t, (ast.Tuple, ast.List)):
-            vs = list(v)
+            vs = list(self._iterate(v)) if isinstance(v, LazyIter) else list(v)
             if len(vs) != len(t.elts):
+                if isinstance(v, (list, tuple, str, LazyIter, set, dict, range)):
+                    raise FoldRaise('ValueError', f'{"too many" if len(vs) > len(t.elts) else "not enough"} values to unpack (expected {len(t.elts)})')
                 raise Unsupported('tuple arity')
             for tt, vv in zip(t.elts, vs):
                 self._assign(tt, vv, env)
@@ -1684,7 +1704,7 @@ class Folder:
         if isinstance(e, ast.Call):
             return self._call(e, env, mod, ci)
         if isinstance(e, ast.Lambda):
-            return ('lambda', e, dict(env), mod, ci)
+            return ('lambda', e, _scope(env), mod, ci)
         if isinstance(e, (ast.ListComp, ast.SetComp, ast.GeneratorExp, ast.DictComp)) and self.allow_loops:
             def source(g, env2):
                 it = self._eval(g.iter, env2, mod, ci)
@@ -1708,15 +1728,15 @@ class Folder:
                 g = e.generators[gi]
                 it = first if first is not None else source(g, env2)
                 for x in self._iterate(it):
-                    env3 = dict(env2)
+                    env3 = _scope(env2)
                     self._assign(g.target, x, env3)
                     if all(self._truth(self._eval(c, env3, mod, ci)) for c in g.ifs):
                         yield from rec(gi + 1, env3)
             if isinstance(e, ast.GeneratorExp):
                 # a generator expression: the outermost iterable is evaluated now, everything else when the items are asked for
-                env0 = dict(env)
+                env0 = _scope(env)
                 return LazyIter(rec(0, env0, first=source(e.generators[0], env0)))
-            out = list(rec(0, dict(env)))
+            out = list(rec(0, _scope(env)))
             if isinstance(e, ast.SetComp):
                 return set(out)
             if isinstance(e, ast.DictComp):
@@ -1783,7 +1803,7 @@ class Folder:
 
     def _call_value(self, f, args):
         _, node, cenv, cmod, cci = f
-        env2 = dict(cenv)
+        env2 = _scope(cenv)
         for prm, a in zip(node.args.args, args):
             env2[prm.arg] = a
         return self._eval(node.body, env2, cmod, cci)
@@ -1869,7 +1889,7 @@ class Folder:
             return self._call_closure(f, args, kw)
         if isinstance(f, tuple) and f[0] == 'lambda':
             _, node, cenv, cmod, cci = f
-            env2 = dict(cenv)
+            env2 = _scope(cenv)
             for prm, a in zip(node.args.args, args):
                 env2[prm.arg] = a
             return self._eval(node.body, env2, cmod, cci)
